@@ -63,6 +63,7 @@ def setup():
 
     simloop.install()
     simstore.install()
+    warnings.filterwarnings("ignore", message=r"coroutine '.*' was never awaited")
     _setup_done.append(1)
 
 
@@ -163,6 +164,10 @@ class SerEnv:
                 if getattr(self, "warnings_as_errors", None):
                     for cat in self.warnings_as_errors:
                         warnings.simplefilter("error", cat)
+                    # asyncio's own "coroutine ... was never awaited" (siblings of a failed store
+                    # operation that were never started) is reported from a finaliser and cannot
+                    # propagate anyway: keep it out of the logs
+                    warnings.filterwarnings("ignore", message=r"coroutine '.*' was never awaited")
                 res = fn()
         except Exception as e:  # the property is about failing saves
             exc = e
